@@ -10,6 +10,37 @@ import gen
 from common import run_harness, run_model, qenc, Reader
 
 TOL = Fraction(1, 10 ** 9)
+# Known class "large-magnitude": rust_decimal keeps 28 significant digits, so a
+# rounding step on a value of size M loses up to ~1e-28 * M; once a history carries
+# amounts of 1e16 dollars or more the accumulated deviation can exceed 1e-9.
+BIG = Fraction(10 ** 16)
+
+
+def known_findings():
+    import json, os
+    f = os.path.join(os.path.dirname(os.path.dirname(os.path.dirname(os.path.abspath(__file__)))), "known-findings.d", "C01.json")
+    return json.load(open(f)).get("findings", []) if os.path.exists(f) else []
+
+
+def scale_case(c, fs, fp):
+    """the same history with share quantities x fs and per-share amounts x fp"""
+    from core import dtext
+    out = {"rows": [], "inits": {}}
+    for r in c["rows"]:
+        r = dict(r)
+        if r["act"] in ("Buy", "Sell"):
+            v = r["sh"][1] * fs
+            r["sh"] = (dtext(v), v)
+        if r["act"] in ("Buy", "Sell", "RoC"):
+            v = r["aps"][1] * fp
+            r["aps"] = (dtext(v), v)
+        if r.get("sfl"):
+            v = r["sfl"][0][1] * fs * fp
+            r["sfl"] = ((dtext(v), v), r["sfl"][1])
+        out["rows"].append(r)
+    for k, (sh, acb) in c.get("inits", {}).items():
+        out["inits"][k] = ((dtext(sh[1] * fs), sh[1] * fs), (dtext(acb[1] * fs * fp), acb[1] * fs * fp))
+    return out
 
 
 def spec_input(sec_rows, init, at, case_rows=None):
@@ -117,6 +148,8 @@ def check_cases(res, ctx, cases, label):
     spec_out = run_model([j[3] for j in spec_jobs])
     for (k, s, deltas, _), so in zip(spec_jobs, spec_out):
         rows = parse_spec(so)
+        mag = max([Fraction(0)] + [abs(x) for sp in rows for x in sp if x is not None])
+        stats["magnitude-1e%02d" % (len(str(int(mag))) - 1)] += 1
         for r, (d, sp) in enumerate(zip(deltas, rows)):
             stats["rows_checked"] += 1
             bad = None
@@ -126,6 +159,11 @@ def check_cases(res, ctx, cases, label):
                 bad = ("total cost base", d["post"][2], sp[1])
             elif not core.close(d["gain"], sp[2], TOL):
                 bad = ("capital gain", d["gain"], sp[2])
+            if bad and mag >= BIG:
+                stats["known-large-magnitude-deviation"] += 1
+                ctx["known_hit"]["large-magnitude"] = ctx["known_hit"].get("large-magnitude") or {
+                    "input": hc[k], "row": r, "figure": bad[0], "actual_impl": str(bad[1]), "expected_spec": str(bad[2])}
+                break
             if bad:
                 res.violation("failing-input",
                               "row %d of security #%s: %s reported %s, average-cost rules give %s" % (r, s, bad[0], bad[1], bad[2]),
@@ -139,7 +177,7 @@ def check_cases(res, ctx, cases, label):
 def run(res, ctx):
     tier, seed = ctx["tier"], ctx["seed"]
     rng = random.Random(seed * 7919 + 1)
-    ctx.update(stats=collections.Counter(), seen=set(), samples=[], corr_diffs=[], max_err=Fraction(0))
+    ctx.update(stats=collections.Counter(), seen=set(), samples=[], corr_diffs=[], max_err=Fraction(0), known_hit={})
     n_arith = 20000 if tier == "quick" else 200000
     av = arithcheck.validate(ctx["exe"], rng, n_arith)
     if av["mismatches"]:
@@ -152,6 +190,29 @@ def run(res, ctx):
         cases = [gen.gen_case(rng, p_invalid=0.03) for _ in range(min(batch, n - done))]
         check_cases(res, ctx, cases, "random")
         done += len(cases)
+    # large magnitudes: the stored witness of the known class first, then scaled random histories
+    known = known_findings()
+    wit = [k for k in known if k.get("id") == "large-magnitude"]
+    for k in wit:
+        w = k["witness"]
+        rows = [{"sec": "FOO", "td": gen.BASE_DAY + 100 + 100 * i, "sd": gen.BASE_DAY + 100 + 100 * i, "act": a,
+                 "sh": (sh, Fraction(sh)), "aps": (aps, Fraction(aps)), "com": (com, Fraction(com)),
+                 "cur": None, "rate": None, "af": None} for i, (a, sh, aps, com) in enumerate(w["rows"])]
+        before = ctx["stats"]["known-large-magnitude-deviation"]
+        check_cases(res, ctx, [{"rows": rows, "inits": {}}], "known-witness")
+        if ctx["stats"]["known-large-magnitude-deviation"] > before:
+            res.known(k["what"])
+        # a witness that no longer deviates is simply no longer reported
+    big_cases = []
+    for _ in range(40 if tier == "quick" else 400):
+        c = gen.gen_case(rng, p_invalid=0.0)
+        if any(r.get("cur") not in (None, "CAD") and r.get("rate") is None for r in c["rows"]):
+            continue
+        try:
+            big_cases.append(scale_case(c, Fraction(10) ** rng.randint(3, 8), Fraction(10) ** rng.randint(2, 6)))
+        except ValueError:
+            pass
+    check_cases(res, ctx, big_cases, "large-magnitude")
     # long histories (any length)
     long_cases = [{"rows": gen.gen_history(rng, n_rows=rng.choice([60, 120, 250]), p_invalid=0.0,
                                            terminating_only=False), "inits": {}}
@@ -173,6 +234,8 @@ def run(res, ctx):
         "input_distribution": {k: v for k, v in sorted(st.items())},
         "rows_checked_against_spec": st["rows_checked"],
         "max_abs_deviation_from_exact": float(ctx["max_err"]),
+        "large_magnitude_class": {"threshold": "largest exact share count / cost base / gain of the security >= 1e16",
+                                  "deviations_above_1e-9_inside_class": st["known-large-magnitude-deviation"]},
         "arith_validation": av,
         "traces_validated_against_impl": st["evaluations"],
     })
